@@ -127,7 +127,7 @@ def _esc_unit():
                   ensures=[("exactly the builder call CPython's escape rules prescribe: numeric value for \\ooo / \\xhh, the character for \\' \\\" \\\\, the "
                             "table entry for \\a..\\v, nothing for backslash-newline, the sequence kept literally otherwise", _esc_post)],
                   callees=callees, native=_native_esc, search=lambda seed, ob: _native_esc({}, ob),
-                  options={"fields": {B: {"n_events": "int", "ev_kind": "int", "ev_val": "int"}}, "merge": False, "tuple_keys": True})
+                  options={"fields": {B: {"n_events": "int", "ev_kind": "int", "ev_val": "int"}}, "merge": False})
 
 
 def _native_esc(model, obname):
